@@ -882,6 +882,10 @@ impl<T, A: Allocator> RawTable<T, A> {
                 // 3. If any elements' drop function panics, then there will only be a memory leak,
                 //    because we have replaced the inner table with a new one.
                 old_inner.drop_inner_table::<T, _>(&self.alloc, Self::TABLE_LAYOUT);
+                #[cfg(hashbrown_verif)]
+                if verif_hooks::unwinding() {
+                    return;
+                }
             }
             return;
         }
@@ -3220,6 +3224,10 @@ impl<T: Clone, A: Allocator + Clone> Clone for RawTable<T, A> {
                 // 3. If any elements' drop function panics, then there will only be a memory leak,
                 //    because we have replaced the inner table with a new one.
                 old_inner.drop_inner_table::<T, _>(&self.alloc, Self::TABLE_LAYOUT);
+                #[cfg(hashbrown_verif)]
+                if verif_hooks::unwinding() {
+                    return;
+                }
             }
         } else {
             unsafe {
